@@ -2,6 +2,8 @@ package gen
 
 import (
 	"sort"
+	"sync"
+	"sync/atomic"
 
 	of "github.com/contiv/libOpenflow/openflow13"
 	"github.com/contiv/libOpenflow/util"
@@ -36,7 +38,13 @@ func learn(kind string, f func() (*rec.Rec, error)) {
 	}
 }
 
-func init() {
+// HoldDefaults, while set, keeps the generators from learning (and using) the defaults: the first-use storm of the
+// concurrency checks must itself be the first user of the library in its process.
+var HoldDefaults atomic.Bool
+
+var learnOnce sync.Once
+
+func learnDefaults() {
 	act := func(kind string, mk func() of.Action) {
 		learn(kind, func() (*rec.Rec, error) { return lib.ExtractAction(mk()) })
 	}
@@ -64,6 +72,10 @@ func init() {
 // withDefaults replaces, with probability 1/5 each, scalar fields of a recipe by the constructor's default. One PRNG
 // draw per candidate field, whatever the outcome.
 func withDefaults(r *prng.R, a *rec.Rec) *rec.Rec {
+	if HoldDefaults.Load() {
+		return a
+	}
+	learnOnce.Do(learnDefaults)
 	d := Defaults[a.K]
 	if len(d) == 0 {
 		return a
